@@ -17,7 +17,7 @@ from hypothesis import strategies as st
 
 from .. import ast as A
 from ..runner import Outcome, fail, open_features
-from ..strategies import Cfg, query_case
+from ..strategies import Cfg, query_case, chance
 from ..world import build_entities
 from ..build import build_query, rows_of
 from ..qcheck import reference_rows, case_features, render_query, ident, show_rows, satisfying, abandon
@@ -48,6 +48,14 @@ def _case(draw, tier):
     c["steer"] = draw(st.sampled_from(["keep", "one", "one", "zero"]))
     c["pick"] = draw(st.integers(0, 30))
     c["quant"] = "the"
+    if len(c["vars"]) == 1 and chance(draw, 1, 4):
+        # the description is a predicate-form term and nothing else: the(Ent(From(d), f=v)); the number of solutions is
+        # steered through the field constraint (k is unique)
+        from ..strategies import PROFILES
+        from ..world import enc
+        P_ = PROFILES[_cfg(tier).profile]
+        f = draw(st.sampled_from(["a", "b", "s"]))
+        c["term_only"] = [f, enc(draw(st.sampled_from(P_["ints"] if f in ("a", "b") else P_["strs"])))]
     c["share_condition_object"] = draw(st.booleans())
     c["abandon_shared_an_first"] = draw(st.sampled_from([0, 1, 1, 2]))
     return c
@@ -60,6 +68,20 @@ def strategy(tier):
 def effective_case(case, objs):
     """Apply the steering deterministically (pure function of the case)."""
     eff = copy.deepcopy(case)
+    if case.get("term_only"):
+        eff["cond"] = None
+        eff["vars"][0].update(decl="from", kw=[])
+        members = satisfying(eff, objs)
+        if case["steer"] == "one" and members:
+            kw = [["k", members[case["pick"] % len(members)][0].k]]
+        elif case["steer"] == "zero":
+            kw = [["k", 0]]
+        else:
+            kw = [list(case["term_only"])]
+        eff["vars"][0]["kw"] = kw
+        eff["sel"], eff["desc"] = [["var", 0]], "term"
+        eff.pop("earlier_queries_sharing_comparisons", None)
+        return eff
     base = satisfying(case, objs)
     if case["steer"] == "one" and base:
         chosen = base[case["pick"] % len(base)]
@@ -98,6 +120,8 @@ def check(case) -> Outcome:
     want = {"n0": "none", "n1": "value", "n2plus": "multiple"}[cls]
     feats.append(cls)
 
+    if case.get("term_only"):
+        classes.append("description_is_a_predicate_form_term")
     shared = bool(case.get("share_condition_object")) and eff.get("cond") is not None and not A.has_kind(eff["cond"], "not")
     if shared:
         # the description's condition OBJECT is afterwards also used to build an `an` query (users reuse conditions)
